@@ -33,7 +33,7 @@ def cfg_name(c: Dict[str, Any]) -> str:
     r = "+".join(c["receivers"])
     x = f"S[{s}] R[{r}] buf{c['buffer']}"
     if c["closer"]:
-        x += " closer"
+        x += " closer" + ("x%d" % c["closers"] if c.get("closers", 1) > 1 else "")
     if c.get("cancel") is not None:
         x += f" cancel{c['cancel']}"
     if c.get("timeout") is not None:
@@ -142,6 +142,8 @@ def make_tasks(env: Env, cfg: Dict[str, Any], ch: AsyncChannel) -> Dict[str, Any
         tasks[f"r{rid}"] = loop.create_task(receiver(rid, kind, cfg.get("timeout") == rid))
     if cfg["closer"]:
         tasks["closer"] = loop.create_task(closer())
+    for extra in range(1, int(cfg.get("closers", 1))):
+        tasks[f"closer{extra}"] = loop.create_task(closer())
     if cfg.get("cancel") is not None:
         tasks["canceller"] = loop.create_task(canceller(cfg["cancel"]))
     return tasks
@@ -381,9 +383,9 @@ def configs(tier: str) -> List[Tuple[Dict[str, Any], Optional[int], int]]:
     out: List[Tuple[Dict[str, Any], Optional[int], int]] = []
     FULL = None
 
-    def add(senders, receivers, closer=True, buffer=0, cancel=None, timeout=None, bound=FULL, cap=400000):
+    def add(senders, receivers, closer=True, buffer=0, cancel=None, timeout=None, bound=FULL, cap=400000, closers=1):
         out.append(({"senders": senders, "receivers": receivers, "closer": closer, "buffer": buffer,
-                     "cancel": cancel, "timeout": timeout}, bound, cap))
+                     "cancel": cancel, "timeout": timeout, "closers": closers}, bound, cap))
 
     quick = tier == "quick"
     kinds = ["receive", "aiter"]
@@ -402,6 +404,16 @@ def configs(tier: str) -> List[Tuple[Dict[str, Any], Optional[int], int]]:
         add([["send", 2]], ["receive"], buffer=buf)
         add([["send_from_close", 2]], ["aiter"], closer=False, buffer=buf)
         add([["send", 2]], ["receive", "aiter"], buffer=buf, bound=3 if quick else 4)
+    # close() called twice (two closer tasks), also with stranded receivers / bounded buffers
+    add([["send", 1]], ["receive"], closers=2)
+    add([["send", 1]], ["receive", "aiter"], closers=2, bound=3 if quick else FULL)
+    add([["send", 2]], ["aiter", "receive"], buffer=1, closers=2, bound=3 if quick else 4)
+    # a sender blocked on a full bounded buffer when close() arrives; more stranded receivers than slots
+    add([["send", 3]], ["receive"], buffer=1, bound=4 if quick else FULL)
+    add([["send", 1]], ["receive", "receive", "aiter"], buffer=1, bound=3 if quick else 4)
+    add([["send_from_close", 2]], ["receive", "aiter"], closer=False, buffer=1, bound=4 if quick else FULL)
+    add([["send_from_async", 2]], ["aiter", "receive"], bound=3 if quick else 4)
+    add([["send_from", 2]], ["receive", "receive"], buffer=2, bound=3 if quick else 4)
     # two senders
     add([["send", 1], ["send", 1]], ["receive"])
     add([["send", 1], ["send", 1]], ["receive", "aiter"], bound=3 if quick else 5)
@@ -416,6 +428,10 @@ def configs(tier: str) -> List[Tuple[Dict[str, Any], Optional[int], int]]:
     for k in kinds:
         add([["send", 1]], [k], timeout=0)
         add([["send", 1]], [k, "receive"], timeout=0, bound=4 if quick else FULL)
+    if quick:
+        # one more deviation than the per-configuration figures above (measured: the whole quick
+        # tier stays well under a minute)
+        out[:] = [(c, None if b is None else b + 1, cap) for c, b, cap in out]
     if not quick:
         add([["send", 2]], ["receive", "aiter", "receive"], bound=3, cap=1500000)
         add([["send", 3]], ["receive", "aiter"], bound=3, cap=1500000)
